@@ -93,8 +93,12 @@ func C17AddReserved(rng *rand.Rand, specs []TypeSpec, caps map[string]int, cfg C
 					if rng.Float64() < cfg.PCapSkew {
 						c = rng.Intn(4)
 					}
+					avail := rng.Float64() >= cfg.PUnavailable
+					if c == 0 && rng.Intn(10) < 7 {
+						avail = false // providers normally mark an exhausted reservation unavailable; sometimes they lag
+					}
 					s.Offerings = append(s.Offerings, OfferingSpec{Zone: Zones[zi], CapType: v1.CapacityTypeReserved, Price: round4(base * 0.01),
-						Available: rng.Float64() >= cfg.PUnavailable, ReservationID: id, ReservationCapacity: c})
+						Available: avail, ReservationID: id, ReservationCapacity: c})
 				}
 			}
 		}
